@@ -590,6 +590,29 @@ def error_mapping(report, db, S, mod):
                                  site, fi.qualname, 'a non-error body does '
                                  'not produce a "malformed" message (path '
                                  '[%s])' % p.cond_text())
+    # what the service sent is data: it is put into the message, never used
+    # as the format string of a later formatting step
+    fmt_bad = None
+    for p in raising:
+        for t0 in [v for k, v in p.heap.items()] + [p.outcome[1]]:
+            if not isinstance(t0, tuple):
+                continue
+            for t in pathsum.subterms(t0):
+                if t[0] == 'op' and t[1] in ('%', 'fmt%', 'format') and \
+                        len(t[2]) >= 1 and not is_const(t[2][0]) and any(
+                            x == res for x in pathsum.subterms(t[2][0])):
+                    fmt_bad = (p, t)
+    if fmt_bad:
+        p, t = fmt_bad
+        report.violation(R, 'errmap:reply-as-format', fi.path,
+                         p.outcome[2] if len(p.outcome) > 2 else fi.node,
+                         fi.qualname, 'text taken from the reply is part of '
+                         'a format string (%s): a `%%` in the service\'s '
+                         'message or in a non-JSON body makes the '
+                         'formatting raise TypeError / ValueError instead '
+                         'of the YggdrasilError' % show(t[2][0])[:90])
+    else:
+        report.ok(R, 'the reply\'s text is only ever a formatting argument')
     if kinds['type']:
         report.ok(R, 'raises a YggdrasilError on %d path(s)' % len(raising))
     if kinds['status']:
